@@ -22,11 +22,11 @@ from .seqdom import ObjVal, Val, I, K, E, Sq, Tup, psubs, normalise, tsubs
 
 
 class Rec(ObjVal):
-    def __init__(self, role, transposed=False):
-        self.role, self.transposed = role, transposed
+    def __init__(self, role, transposed=False, w=None):
+        self.role, self.transposed, self.w = role, transposed, w        # w: a scalar weight the whole record was multiplied with (None = 1)
 
     def show(self):
-        return f"Rec<{self.role}>" + (".T" if self.transposed else "")
+        return (f"{self.w!r}*" if self.w is not None else "") + f"Rec<{self.role}>" + (".T" if self.transposed else "")
 
     __repr__ = show
 
@@ -248,6 +248,28 @@ class Interp(seqdom.Interp):
         if isinstance(test, ast.Call) and astq.src(test.func).split(".")[-1] in ("array_equal", "array_equiv") and len(test.args) == 2 \
                 and any(isinstance(self.ev(a_, env), RefIdx) for a_ in test.args):
             return False        # a general list of channels, not a ramp: the path of the gathered selection (a shortcut for ramps is R-shortcut's business)
+        # two records: `A is B` is decided by what they are; `A.shape == B.shape` holds in one world (every channel a reference channel,
+        # listed in another order - the records still differ) and not in the other: the caller analyses both (self.same_shape)
+        if isinstance(test, ast.Compare) and len(test.ops) == 1 and isinstance(test.ops[0], (ast.Is, ast.IsNot, ast.Eq, ast.NotEq)):
+            l_, r_ = test.left, test.comparators[0]
+            if isinstance(test.ops[0], (ast.Is, ast.IsNot)):
+                a_, b_ = self.ev(l_, env), self.ev(r_, env)
+                if isinstance(a_, Rec) and isinstance(b_, Rec):
+                    same = a_.role == b_.role and a_.transposed == b_.transposed and a_.w == b_.w
+                    return same if isinstance(test.ops[0], ast.Is) else not same
+            else:
+                def rec_of_shape(e_):
+                    while isinstance(e_, ast.Subscript):
+                        e_ = e_.value
+                    if isinstance(e_, ast.Attribute) and e_.attr == "shape":
+                        v_ = self.ev(e_.value, env)
+                        return v_ if isinstance(v_, Rec) else None
+                    return None
+                a_, b_ = rec_of_shape(l_), rec_of_shape(r_)
+                if a_ is not None and b_ is not None and a_.role != b_.role and not (isinstance(l_, ast.Subscript) and astq.src(l_.slice) in ("1", "-1")):
+                    self.sh.setdefault("shape_tests", []).append(test)          # (shared with the interpreters of the helpers called)
+                    eq = bool(self.sh.get("same_shape", False))
+                    return eq if isinstance(test.ops[0], ast.Eq) else not eq
         return super().truth(test, env)
 
     def attr_hook(self, base, name, node):
@@ -262,7 +284,7 @@ class Interp(seqdom.Interp):
             return Tup([I(P.s(b)), I(P.s(a))]) if base.transposed else Tup([I(P.s(a)), I(P.s(b))])
         if name == "T":
             if isinstance(base, Rec):
-                return Rec(base.role, not base.transposed)
+                return Rec(base.role, not base.transposed, base.w)
             if isinstance(base, Win):
                 return Win(base.role, base.lo, base.hi, base.w, not base.transposed)
             if isinstance(base, Stk):
@@ -392,11 +414,11 @@ class Interp(seqdom.Interp):
                         lo = P.s("Ndat") + lo
                     if hi.is_const() and hi.const() < 0:
                         hi = P.s("Ndat") + hi
-                    return Win(base.role, lo, hi)
+                    return Win(base.role, lo, hi, base.w)
             if isinstance(r, tuple) and r[0] == "slice" and r[1] is None and r[2] is None and isinstance(c, E) and isinstance(c.node, ast.Call) and astq.src(c.node.func) == "slice":
                 a = [self.topoly(self.ev(x, self.env)) for x in c.node.args]
                 if len(a) == 2 and all(x is not None for x in a):
-                    return Win(base.role, a[0], a[1])
+                    return Win(base.role, a[0], a[1], base.w)
             return Opq(f"selection `{astq.src(node, 50)}` of a record")
         if isinstance(base, (RFac, BlockMat, Gram)) and len(idx) == 2 and all(isinstance(x, tuple) and x[0] == "slice" and x[3] is None for x in idx):
             b = [(self.topoly(x[1]) if x[1] is not None else None, self.topoly(x[2]) if x[2] is not None else None) for x in idx]
@@ -410,6 +432,8 @@ class Interp(seqdom.Interp):
         return None
 
     def scale(self, x, w):
+        if isinstance(x, Rec):
+            return Rec(x.role, x.transposed, w if x.w is None else x.w * w)      # the record scaled once, ahead of the windows cut from it
         if isinstance(x, Win):
             return Win(x.role, x.lo, x.hi, x.w * w, x.transposed)
         if isinstance(x, Corr):
@@ -508,6 +532,8 @@ class Interp(seqdom.Interp):
                 and isinstance(node.args[1].op, ast.Add) and astq.dump(node.args[1].left) == astq.dump(node.args[2]) and astq.dump(node.args[0].left) == astq.dump(node.args[2]) \
                 and isinstance(node.args[0].ops[0], ast.Lt):
             return args[2]                  # np.where(idx < 0, idx + n, idx): the same channels, negative numbers counted from the end
+        if fn == "len" and len(args) == 1 and isinstance(args[0], Rec):
+            return self.attr_hook(args[0], "shape", node).items[0]
         if fn == "len" and len(args) == 1 and isinstance(args[0], Stk) and not args[0].transposed and isinstance(args[0].win, Win):
             return I(args[0].n * P.s(SYM[args[0].win.role][0]))          # rows of a stack of blocks
         if fn == "numpy.cumsum" and len(args) == 1 and not kw:
